@@ -1046,6 +1046,45 @@ example :
     verifyRRSIGWork cv (fun _ => true) (fun _ => true) (fun _ => 9) [k1, k2] ⟨9, 9, 2⟩ [46] ⟨[r], [], [s]⟩ = (WRes.ok, 2) := by
   decide
 
+/-! ## VerifyDSWithWork: the work governor on the DS side -/
+
+/-- **Bounded work, DS side.** `VerifyDSWithWork` begins at most `g.budget` digests. -/
+theorem ds_work_never_exceeds_budget (sup : DSRec → Bool) (dmatch : DKey → Nat → Bytes → Bool) (limit : Nat)
+    (keys : List DKey) (g : Gov) (dss : List DSRec) : (verifyDSWork sup dmatch limit keys g dss).2 ≤ g.budget :=
+  verifyDSWork_budget sup dmatch limit keys g dss
+
+/-- **A governor only refuses, DS side**: no work error under `g` ⇒ the same
+result and the same number of digests under every more generous governor. -/
+theorem ds_governor_only_refuses (sup : DSRec → Bool) (dmatch : DKey → Nat → Bytes → Bool) (limit : Nat)
+    (keys : List DKey) (g g' : Gov) (hle : govLe g g') (dss : List DSRec)
+    (h : (verifyDSWork sup dmatch limit keys g dss).1 ≠ WRes.work) :
+    verifyDSWork sup dmatch limit keys g' dss = verifyDSWork sup dmatch limit keys g dss :=
+  verifyDSWork_mono sup dmatch limit keys g g' hle dss h
+
+/-- **The governed DS walk is `VerifyDS`**: in the code's order (DS records
+de-duplicated by canonical owner / upper-cased digest and sorted, candidate
+keys de-duplicated and sorted), without a work error it accepts exactly when
+`verifyDS` does (`verifyds_ok_iff`), given that the digest verdict does not
+depend on a key's owner spelling and a DS's authenticating power not on its
+owner / digest spelling beyond the identities the code collapses by. -/
+theorem governed_ds_walk_is_verify_ds (sup : DSRec → Bool) (dmatch : DKey → Nat → Bytes → Bool) (limit : Nat)
+    (keys : List DKey) (g : Gov) (dss : List DSRec)
+    (hdm : ∀ k k' dt w, dkeyIdent k = dkeyIdent k' → dmatch k dt w = dmatch k' dt w)
+    (hds : ∀ d d', dsIdent d = dsIdent d' → dsAuthenticates sup dmatch limit keys d = dsAuthenticates sup dmatch limit keys d')
+    (h : (verifyDSWork sup dmatch limit keys g dss).1 ≠ WRes.work) :
+    (verifyDSWork sup dmatch limit keys g dss).1 = WRes.ok ↔ (verifyDS sup dmatch limit keys dss).2 = true :=
+  verifyDSWork_verdict sup dmatch limit keys g dss hdm hds h
+
+-- two candidate keys under one DS, the second matches: a budget of one digest refuses, two accept
+example :
+    let k1 : DKey := ⟨257, 3, 13, 1, [46], [65], 7⟩
+    let k2 : DKey := ⟨257, 3, 13, 1, [46], [66], 7⟩
+    let d : DSRec := ⟨[46], 1, 7, 13, 2, [97, 98]⟩
+    let dm := fun (k : DKey) (_ : Nat) (_ : Bytes) => k.pk == [66]
+    verifyDSWork (fun _ => true) dm 100 [k1, k2] ⟨9, 0, 1⟩ [d] = (WRes.work, 1) ∧
+    verifyDSWork (fun _ => true) dm 100 [k1, k2] ⟨9, 0, 2⟩ [d] = (WRes.ok, 2) ∧
+    verifyDSWork (fun _ => true) dm 100 [k1, k2] ⟨1, 0, 9⟩ [d] = (WRes.work, 1) := by decide
+
 /-! ## facts regenerated from the tree (one-directional side conditions) -/
 
 /-- the decode chunk is whole base64 groups and decodes to an even number of
